@@ -154,6 +154,11 @@ Definition times (n : nat) (d : Qc) : list Qc := map (fun k => (NtoQc k * d)%Qc)
 (* before fix D05: np.linspace(0, T, n, endpoint=False) = k * (T/n) (only used to state what the fix changed) *)
 Definition times_linspace (n : nat) (T : Qc) : list Qc := map (fun k => (NtoQc k * (T / NtoQc n))%Qc) (seq 0 n).
 
+(* Model switch for defect D35 (one stored sample and >= 2 output columns: ValueError from the DataFrame constructor).
+   false = the code as it is; true = the code with /verif/fixes/proposed_fix_C03_D35.diff applied (the unit axes are
+   squeezed, never the time axis).  harness/c03.py reads this line too. *)
+Definition fixed_D35 : bool := false.
+
 Definition pick (cols : list nat) (y : row) : row := map (fun j => nth j y 0%Qc) cols.
 
 (* DataFrame rows: time :: values of the requested columns;  results.loc[cutoff:, :] keeps index >= cutoff *)
@@ -172,7 +177,7 @@ Definition run_model {C} (f : C -> nat -> row -> row * C) (s : solver)
   match solve f s T dt d y0 c0 0 with
   | Rows rec =>
       if (n =? 0)%nat then ErrIndex
-      else if (n =? 1)%nat && (2 <=? length cols)%nat then ErrShape
+      else if negb fixed_D35 && (n =? 1)%nat && (2 <=? length cols)%nat then ErrShape
       else Rows (frame cutoff (times n d) cols rec)
   | o => o
   end.
@@ -197,9 +202,9 @@ Definition rows_fit (T dt dts : Qc) : bool :=
 (* the property's quantifier: the sampling step is a positive integer multiple of the step *)
 Definition sampling_multiple (dt dts : Qc) : bool :=
   (1 <=? rnd (dts / dt))%nat && Qeq_bool (this (NtoQc (rnd (dts / dt)) * dt)%Qc) (this dts).
-(* at least one row, and not (one row and several columns) *)
+(* at least one row, and (unless D35 is repaired) not (one row and several columns) *)
 Definition frame_ok (T d : Qc) (ncols : nat) : bool :=
-  (1 <=? rnd (T / d))%nat && negb ((rnd (T / d) =? 1)%nat && (2 <=? ncols)%nat).
+  (1 <=? rnd (T / d))%nat && (fixed_D35 || negb ((rnd (T / d) =? 1)%nat && (2 <=? ncols)%nat)).
 
 (* ------------------------------------------------------------------------------------------------ *)
 (* a concrete family of right-hand sides for the correspondence run: affine in y, in the time argument and in
